@@ -129,14 +129,14 @@ impl<F: Field> MultilinearExtension<F> for SparseMultilinearExtension<F> {
             // swap
             core::mem::swap(&mut a, &mut b);
         }
-        // sanity check
-        assert!(
-            a + k < self.num_vars && b + k < self.num_vars,
-            "invalid relabel argument"
-        );
         if a == b || k == 0 {
             return self.clone();
         }
+        // sanity check
+        assert!(
+            a + k <= self.num_vars && b + k <= self.num_vars,
+            "invalid relabel argument"
+        );
         assert!(a + k <= b, "overlapped swap window is not allowed");
         let ev: Vec<_> = cfg_iter!(self.evaluations)
             .map(|(&i, &v)| (swap_bits(i, a, b, k), v))
